@@ -14,9 +14,14 @@ SPEC = dict(
          "later, EQUAL and OLDER than the replaced file's; sidecars later than / equal to the shard, dominating sidecars removed) on a "
          "scratch directory, explicit scan() after each step, real Lstat mtimes; non-trivial = at least one drop and one reload "
          "after the first scan. vfp cases (4 per script): versionFromPath on builder-style and random strings over "
-         "{_ . v digits + - / ...}; non-trivial = contains both '_' and '.'.",
+         "{_ . v digits + - / ...}; non-trivial = contains both '_' and '.'. Every script also HOLDS the lists getLoaded() returns after "
+         "the drop and after each scan and iterates them again after later scans (s_held). held-search cases (12 quick / 120 thorough): "
+         "a real Search/StreamSearch held open by 2*procs+2..+6 fake shards blocking on a gate (GOMAXPROCS 1-3) while 1-4 batches of "
+         "replace/drop/add go through shardedSearcher.replace; non-trivial = at least one replace or drop.",
     trusted_base=["correspondence harness harness/overlay/search/zz_verif_c19_test.go (directory scripts, content identities via a "
-                  "real search on each loaded shard, Go oracle)",
+                  "real search on each loaded shard, Go oracle) and zz_verif_c19held_test.go (searches held open by blocking fake shards)",
+                  "coq/Model/RankedStore.v: Go slices as (address, length) headers into a store of arrays; the order of the published "
+                  "list (ranking) is not modelled, lists are compared as sets of (key, content)",
                   "filepath.Glob / os.Lstat / strconv.Atoi modelled by their contracts (suffix filter, listing lookup, signed decimal int64)",
                   "PARTIAL: data races / use-after-unmap (finalizer + KeepAlive, mmap) are not modelled; thorough tier adds a -race "
                   "stress run of a real DirectorySearcher (harness/overlay/search/zz_verif_c19race_test.go) as evidence, not proof"],
